@@ -717,6 +717,23 @@ def _work(task):
             key = f"{clause}|{cls}"
             if key not in found:
                 found[key] = {"seed": label, "mutation": desc, "clause": clause, "detail": detail, "proto_hex": m.SerializeToString().hex()}
+        if b"location" in m.SerializeToString():
+            # protos that mention external data are deserialised once more with the library's public debug switch on:
+            # extra validation must not start looking at the file system either
+            import onnx_ir as _oi
+
+            saved = _oi.DEBUG
+            _oi.DEBUG = True
+            try:
+                out2, v2 = check_proto(m)
+            finally:
+                _oi.DEBUG = saved
+            n += 1
+            for clause, detail in v2:
+                if clause.startswith("file_access"):
+                    key = f"{clause}|{cls}|DEBUG=True"
+                    if key not in found:
+                        found[key] = {"seed": label, "mutation": desc, "clause": clause, "detail": detail, "proto_hex": m.SerializeToString().hex(), "debug": True}
 
     if mode == "single":
         run("none", "none", seed)
@@ -809,6 +826,13 @@ def replay(obj):
         return True, "replay file without the mutated proto: re-run ./check C17"
     install_watch()
     m = onnx.ModelProto.FromString(bytes.fromhex(hx))
-    out, v = check_proto(m)
+    import onnx_ir as _oi
+
+    saved = _oi.DEBUG
+    _oi.DEBUG = bool(obj.get("input", {}).get("debug")) or "DEBUG=True" in str(obj.get("finding_key", ""))
+    try:
+        out, v = check_proto(m)
+    finally:
+        _oi.DEBUG = saved
     bad = [x for x in v if x[0] == obj["oracle"]]
     return (not bad), {"outcome": out, "violations": [(c, str(d)[:200]) for c, d in v]}
